@@ -25,7 +25,8 @@ PROPS = {
 PROPS['C13'] = {
     'level': 'proof',
     'technique': 'Lean 4 theorems on an arithmetic model of Prefix/MaxLenPrefix/RouteOrigin/SmallAsnSet (order = compare of one Nat key; '
-                 'set ops by induction) + differential check against the real types on a boundary-dense domain',
+                 'set ops by induction) and on an octet-level model of their text forms + differential check against the real types '
+                 'on a boundary-dense domain and on written, hand-made and mutated texts',
     'claim': 'Lean 4 proofs, for all well-formed prefixes (every address and length), that strict construction accepts exactly in-family '
              'lengths with zero host bits, relaxed construction clears the host bits, max-length rules hold, covers is range inclusion, '
              'the order equals comparison of a single natural-number key (hence total, antisymmetric, transitive, consistent with ==, '
@@ -104,8 +105,9 @@ PROPS['C17'] = {
 
 PROPS['C15'] = {
     'level': 'proof',
-    'technique': 'Lean 4 theorems on a model of the SLURM filters, assertions and serde tree mapping (drop decision as an existence '
-                 'claim per item kind; JSON-tree round trip) + differential check of the real SlurmFile over all filter shapes',
+    'technique': 'Lean 4 theorems on a model of the SLURM filters, assertions, serde tree mapping and of the JSON text itself '
+                 '(serde_json writer compact and pretty, serde_json reader; round trips by mutual induction over the nested tree) '
+                 '+ differential check of the real SlurmFile over all filter shapes and ~40 000 texts, byte for byte',
     'claim': 'Lean 4 proofs for all filter lists and payload items that drop_payload holds exactly when a filter of the item\'s kind '
              'matches (and/or criteria table, prefix criterion = range inclusion via C13, no criteria = no match), that every assertion '
              'yields exactly its payload, that SlurmFile::new picks the version by ASPA presence, and that the serde tree of every '
